@@ -234,6 +234,7 @@ def new_obj(interp, dotted, clsname, **fields):
     cls = interp.get(dotted, clsname)
     o = Obj(cls)
     o.fields.update(fields)
+    o._schema = True
     return o
 
 
